@@ -637,6 +637,34 @@ def apply_sharing(model, rep, pid):
         rep.ob("R-IDENTITY-PURE", "images.identify_image", not bad, site=g.module.site(g.node),
                msg="" if not bad else "identify_image changes objects it was given (%s): computing an image's identity must not "
                                       "alter the image" % "; ".join("line %s: %s" % x for x in bad[:3]))
+    # a constant table is a plain container: wrapped in a class of the package that overrides how membership, iteration or
+    # comparison work (a list subclass whose __contains__ folds case), ``x in TABLE`` no longer means what every rule - and every
+    # reader of the code - takes it to mean
+    for m in sorted(model.modules.values(), key=lambda m: m.name):
+        for name, assigns in sorted(m.assigns.items()):
+            if name.startswith("_") or name != name.upper():
+                continue
+            v = assigns[-1].value
+            if not isinstance(v, ast.Call):
+                continue
+            r = None
+            try:
+                d = dotted(v.func)
+                r = model.resolve_name(m, d) if d else None
+            except Exception:
+                r = None
+            if not r or r[0] != "class":
+                continue
+            c = r[1]
+            if not any(b and b.split(".")[-1] in ("list", "tuple", "set", "frozenset", "dict") for k_ in c.mro() for b in k_.base_names):
+                continue
+            changed = sorted(n for k_ in c.mro() for n in k_.methods
+                             if n in ("__contains__", "__iter__", "__eq__", "__ne__", "__getitem__", "__len__", "index", "count", "__hash__"))
+            props = TABLE_PROPS.get(name, DEFAULT_PROPS)
+            if changed and pid in props:
+                rep.ob("R-TABLE-PLAIN", "%s.%s" % (m.name, name), False, site=m.site(assigns[-1]),
+                       msg="the constant table %s is an instance of %s, which overrides %s: membership tests and iteration over the "
+                           "table no longer have list semantics" % (name, c.qname, ", ".join(changed)))
     tables, found = table_mutations(model)
     for k, where in tables_mutated_through_calls(model, tables).items():
         found.setdefault(k, []).extend(where)
